@@ -473,11 +473,19 @@ def successor(w: World, act: RefAction, args: List[str], st, check_pre: bool = T
     for a in set(addset) & set(delset):
         if addset[a] != delset[a] or len(addset[a]) != 1:
             raise Inconsistent(f"atom {a} added and deleted by different effect groups")
-    seen = {}
+    # several increase / decrease updates of one fluent are additive (PDDL 2.1): their changes accumulate, whatever the order;
+    # an assign or a scaling next to any other update of the same fluent is inconsistent
+    by_target = {}
     for op, tgt, v, g in nums:
-        if tgt in seen:
-            raise Inconsistent(f"fluent {tgt} updated twice")
-        seen[tgt] = (op, v)
+        by_target.setdefault(tgt, []).append((op, v))
+    seen = {}
+    for tgt, ups in by_target.items():
+        if len(ups) == 1:
+            seen[tgt] = ups[0]
+        elif all(op in ("increase", "decrease") for op, _ in ups):
+            seen[tgt] = ("increase", sum((v if op == "increase" else -v) for op, v in ups))
+        else:
+            raise Inconsistent(f"fluent {tgt} updated twice, not only by increase / decrease")
     new_atoms = (set(atoms) - set(delset)) | set(addset)
     new_fl = dict(fl)
     for tgt, (op, v) in seen.items():
